@@ -11,12 +11,12 @@ import (
 
 func init() {
 	register(&Property{
-		ID:        "C10",
-		Title:     "No client input can panic, crash or wedge the gateway",
-		DesignRef: "DESIGN.md §3 C10",
-		Technique: "inventory of partial operations on request-reachable first-party functions: compiler-unproven bounds checks (Go prove/BCE listing) discharged by guards and library post-conditions, unchecked type assertions discharged by who-may-write arguments, reflect partial methods, client-sized allocations, exit/panic calls; plus containment of third-party parsers of client bytes behind a directly recovering defer (call-graph reachability)",
-		LevelText: "Static: every index/slice expression in request-serving first-party code is either proven in-bounds by the Go compiler or discharged by a recognised guard, a library post-condition (copy/Read/EncodeRune counts, Split results, url.Values presence, HasPrefix) or a named reason whose condition is re-checked; every unchecked type assertion is matched with the static types of all writers of the asserted value; allocations sized by client data are bounded; no request-reachable path calls panic/os.Exit/log.Fatal except the entries justified by the settings table or the PAM stack; reflect walks are flagged; the gRPC NTLM method and every go-statement target reach third-party parsers of client bytes only through a function whose deferred closure calls recover() directly; the legacy IN leg starts the packet loop only with both transports set. Decides absence of these panic classes in first-party code and containment of dependency panics; not resource exhaustion or slow clients.",
-		LevelNote: "Trusted: the Go compiler's prove pass (bounds-check elimination), net/http recovering handler panics per connection (counted as 'closes that one connection', never as absence of panics), library post-conditions listed in partial.go. Known findings: kdcproxy.forward indexing and Gateway.setSendReceiveBuffers' reflection walk.",
+		ID:          "C10",
+		Title:       "No client input can panic, crash or wedge the gateway",
+		DesignRef:   "DESIGN.md §3 C10",
+		Technique:   "inventory of partial operations on request-reachable first-party functions: compiler-unproven bounds checks (Go prove/BCE listing) discharged by guards and library post-conditions, unchecked type assertions discharged by who-may-write arguments, reflect partial methods, client-sized allocations, exit/panic calls; plus containment of third-party parsers of client bytes behind a directly recovering defer (call-graph reachability)",
+		LevelText:   "Static: every index/slice expression in request-serving first-party code is either proven in-bounds by the Go compiler or discharged by a recognised guard, a library post-condition (copy/Read/EncodeRune counts, Split results, url.Values presence, HasPrefix) or a named reason whose condition is re-checked; every unchecked type assertion is matched with the static types of all writers of the asserted value; allocations sized by client data are bounded; no request-reachable path calls panic/os.Exit/log.Fatal except the entries justified by the settings table or the PAM stack; reflect walks are flagged; the gRPC NTLM method and every go-statement target reach third-party parsers of client bytes only through a function whose deferred closure calls recover() directly; the legacy IN leg starts the packet loop only with both transports set. Decides absence of these panic classes in first-party code and containment of dependency panics; not resource exhaustion or slow clients.",
+		LevelNote:   "Trusted: the Go compiler's prove pass (bounds-check elimination), net/http recovering handler panics per connection (counted as 'closes that one connection', never as absence of panics), library post-conditions listed in partial.go. Known findings: kdcproxy.forward indexing and Gateway.setSendReceiveBuffers' reflection walk.",
 		Explanation: "C10/bounds maps the compiler's unproven-bounds listing to SSA instructions, keeps those in request-reachable functions (VTA call graph from handler roots) and discharges each. C10/assert, C10/alloc, C10/exit, C10/reflect, C10/div inventory the other partial operations. C10/contain walks the call graph from gRPC methods and go targets to third-party parsers. C10/hijack-nil checks the legacy handler's nil guards.",
 		Assumptions: []string{"panics inside dependencies are in scope only through containment", "net/http recovers panics of handler goroutines and closes that connection"},
 		Rules: []RuleDef{
@@ -608,27 +608,56 @@ func c10Contain(c *Ctx) {
 
 func c10HijackNil(c *Ctx) {
 	rule := "C10/hijack-nil"
-	for _, name := range []string{"Gateway.handleLegacyProtocol", "Gateway.handleWebsocketProtocol"} {
-		fn := c.Fn("cmd/rdpgw/protocol", name)
-		tP := fn.Params[len(fn.Params)-1]
+	// setOrTested: on every path to `at` in fn, field f of tunnel tv was stored non-nil or tested
+	// non-nil; when tv is a parameter of a helper that is only called statically, the same is
+	// asked at each call site for the corresponding argument.
+	var setOrTested func(fn *ssa.Function, at ssa.Instruction, tv ssa.Value, f string, depth int) bool
+	setOrTested = func(fn *ssa.Function, at ssa.Instruction, tv ssa.Value, f string, depth int) bool {
+		isFld := func(v ssa.Value) bool {
+			b, fv, ok := fieldLoad(strip(v))
+			return ok && fv.Name() == f && strip(b) == tv
+		}
+		isStore := func(in ssa.Instruction) bool {
+			s, ok := in.(*ssa.Store)
+			if !ok {
+				return false
+			}
+			b, fv, ok := fieldOfAddr(s.Addr)
+			return ok && fv.Name() == f && strip(b) == tv && !isNil(s.Val)
+		}
+		if !reachWithoutMarkerAvoiding(fn, at, isStore, GNeq(isFld, anyNil)) {
+			return true
+		}
+		p, isParam := tv.(*ssa.Parameter)
+		if !isParam || depth > 2 {
+			return false
+		}
+		idx := -1
+		for i, q := range fn.Params {
+			if q == p {
+				idx = i
+			}
+		}
+		sites, okc := c.staticCallers(fn)
+		if !okc || idx < 0 || len(sites) == 0 {
+			return false
+		}
+		for _, cs := range sites {
+			args := cs.Common().Args
+			if idx >= len(args) || !setOrTested(cs.Parent(), cs.(ssa.Instruction), strip(args[idx]), f, depth+1) {
+				return false
+			}
+		}
+		return true
+	}
+	for _, fn := range c.allFirstPartyFuncs() {
+		if !c.Reachable()[fn] {
+			continue
+		}
 		for _, ci := range callsTo(fn, protoPkg+".NewProcessor") {
-			for _, fld := range []string{"transportOut", "transportIn"} {
-				f := fld
-				isFld := func(v ssa.Value) bool {
-					b, fv, ok := fieldLoad(strip(v))
-					return ok && fv.Name() == f && b == ssa.Value(tP)
-				}
-				isStore := func(in ssa.Instruction) bool {
-					s, ok := in.(*ssa.Store)
-					if !ok {
-						return false
-					}
-					b, fv, ok := fieldOfAddr(s.Addr)
-					return ok && fv.Name() == f && b == ssa.Value(tP) && !isNil(s.Val)
-				}
-				// every path to NewProcessor either stored the field or passed a non-nil test of it
-				bad := reachWithoutMarkerAvoiding(fn, ci.(ssa.Instruction), isStore, GNeq(isFld, anyNil))
-				c.Check(!bad, rule, name+" "+f, ci.Pos(), "the packet loop starts only after "+f+" was set or tested non-nil", "the packet loop can start with Tunnel."+f+" nil: the first read/response dereferences a nil transport")
+			for _, f := range []string{"transportOut", "transportIn"} {
+				ok := setOrTested(fn, ci.(ssa.Instruction), strip(arg(ci, 1)), f, 0)
+				c.Check(ok, rule, fn.Name()+" "+f, ci.Pos(), "the packet loop starts only after "+f+" was set or tested non-nil", "the packet loop can start with Tunnel."+f+" nil: the first read/response dereferences a nil transport")
 			}
 		}
 	}
